@@ -24,12 +24,14 @@ package broker
 
 import (
 	"context"
+	"errors"
 	"fmt"
 	"os"
 	"strings"
 	"sync"
 	"testing"
 	"testing/synctest"
+	"time"
 
 	"pgregory.net/rapid"
 	"verif.local/vfkit"
@@ -47,33 +49,45 @@ type c12GateArm struct {
 	nth     int
 	seen    int
 	hit     bool
+	fail    bool // instead of parking, make the store call fail once (injected read fault)
 	release chan struct{}
 }
 
 type c12GateStore struct {
 	*metadata.InMemoryStore
-	mu    sync.Mutex
-	armed *c12GateArm
+	mu     sync.Mutex
+	armed  *c12GateArm
+	faults int
 }
 
-func (g *c12GateStore) gate(ctx context.Context, label string) {
+var errC12Injected = errors.New("vf: injected transient store error")
+
+func (g *c12GateStore) faultCount() int { g.mu.Lock(); defer g.mu.Unlock(); return g.faults }
+
+func (g *c12GateStore) gate(ctx context.Context, label string) error {
 	if ctx == nil || ctx.Value(c12WorkerKey{}) == nil {
-		return
+		return nil
 	}
 	g.mu.Lock()
 	a := g.armed
 	if a == nil || a.label != label || a.hit {
 		g.mu.Unlock()
-		return
+		return nil
 	}
 	a.seen++
 	if a.seen != a.nth {
 		g.mu.Unlock()
-		return
+		return nil
 	}
 	a.hit = true
+	if a.fail {
+		g.faults++
+		g.mu.Unlock()
+		return errC12Injected
+	}
 	g.mu.Unlock()
 	<-a.release
+	return nil
 }
 
 func (g *c12GateStore) arm(a *c12GateArm) { g.mu.Lock(); g.armed = a; g.mu.Unlock() }
@@ -81,27 +95,29 @@ func (g *c12GateStore) arm(a *c12GateArm) { g.mu.Lock(); g.armed = a; g.mu.Unloc
 func (g *c12GateStore) wasHit(a *c12GateArm) bool { g.mu.Lock(); defer g.mu.Unlock(); return a.hit }
 
 func (g *c12GateStore) Metadata(ctx context.Context, topics []string) (*metadata.ClusterMetadata, error) {
-	g.gate(ctx, "Metadata")
+	_ = g.gate(ctx, "Metadata")
 	return g.InMemoryStore.Metadata(ctx, topics)
 }
 
 func (g *c12GateStore) PutConsumerGroup(ctx context.Context, group *metadatapb.ConsumerGroup) error {
-	g.gate(ctx, "PutConsumerGroup")
+	_ = g.gate(ctx, "PutConsumerGroup")
 	return g.InMemoryStore.PutConsumerGroup(ctx, group)
 }
 
 func (g *c12GateStore) FetchConsumerGroup(ctx context.Context, id string) (*metadatapb.ConsumerGroup, error) {
-	g.gate(ctx, "FetchConsumerGroup")
+	if err := g.gate(ctx, "FetchConsumerGroup"); err != nil {
+		return nil, err
+	}
 	return g.InMemoryStore.FetchConsumerGroup(ctx, id)
 }
 
 func (g *c12GateStore) DeleteConsumerGroup(ctx context.Context, id string) error {
-	g.gate(ctx, "DeleteConsumerGroup")
+	_ = g.gate(ctx, "DeleteConsumerGroup")
 	return g.InMemoryStore.DeleteConsumerGroup(ctx, id)
 }
 
 func (g *c12GateStore) CommitConsumerOffset(ctx context.Context, group, topic string, partition int32, offset int64, meta string) error {
-	g.gate(ctx, "CommitConsumerOffset")
+	_ = g.gate(ctx, "CommitConsumerOffset")
 	return g.InMemoryStore.CommitConsumerOffset(ctx, group, topic, partition, offset, meta)
 }
 
@@ -153,7 +169,10 @@ func (r *c12Run) interleave(label string, nth int, r1, r2 func()) {
 func (r *c12Run) interleaveAct(a c12Act) {
 	live := r.live()
 	// optional set-up: everybody re-joins so that the group is in CompletingRebalance
-	if a.TMode&1 == 1 && len(live) > 0 {
+	if a.TMode&1 == 1 && len(live) > 0 && (a.R1 == 4 || a.R1 == 6) {
+		// heartbeat / commit as R1: bring the group to Stable first
+		r.round(c12Act{Who: a.Who, TMode: a.TAmt, TAmt: 1})
+	} else if a.TMode&1 == 1 && len(live) > 0 {
 		for pass := 0; pass < 2; pass++ {
 			for _, cl := range live {
 				w := c12Peek(r.c)
@@ -269,10 +288,116 @@ func (r *c12Run) interleaveAct(a c12Act) {
 	r.tr("interleave: R1=%s gated at store.%s#%d, R2=%s (phase %s)", r1name, label, nth, r2name, c12Phase(w.phase))
 	r.class(fmt.Sprintf("interleave/r1-%s/r2-%s", r1name, r2name))
 	r.interleave(label, nth, r1, r2)
-	// follow-up: everybody re-joins and syncs, so a corrupted state shows in the replies
+	// follow-up A: the coordinator is restarted from the store and every identity the harness
+	// knows (also the ones that left / expired) heartbeats and commits with its own generation
+	if a.TMode&4 == 4 {
+		if r.restart() {
+			for _, cl := range append([]*c12Client(nil), r.cl...) {
+				if cl.ghost {
+					continue
+				}
+				r.doHeartbeat(cl, cl.ownGen)
+				r.doCommit(cl, cl.ownGen, c12TopicNames[a.Topic%len(c12TopicNames)], int32(a.Part), a.Off+3, false)
+			}
+		}
+	}
+	// follow-up B: everybody re-joins and syncs, so a corrupted state shows in the replies
 	if a.TMode&2 == 2 {
 		r.round(c12Act{Who: a.Who2, TMode: a.TAmt, TAmt: 1})
 	}
+}
+
+// restart replaces the coordinator by a new one over the same store (broker restart /
+// coordinator hand-over). Only done when the persisted group is Stable or absent: a group
+// persisted in the middle of a rebalance is C15's subject, not this machine's.
+func (r *c12Run) restart() bool {
+	rec, err := r.store.FetchConsumerGroup(context.Background(), c12Group)
+	if err != nil || (rec != nil && rec.GetState() != groupStateStableStr) {
+		r.class("restart/skipped-persisted-group-not-stable")
+		return false
+	}
+	pre := c12Peek(r.c)
+	r.observe(pre)
+	r.c.Stop()
+	r.c = NewGroupCoordinator(r.gs, r.brk, &CoordinatorConfig{CleanupInterval: time.Duration(r.env.CleanupMs) * time.Millisecond})
+	synctest.Wait()
+	post := c12Peek(r.c)
+	r.tr("restart: coordinator rebuilt from the store (persisted gen=%d members=%d; in-memory before gen=%d members=%d)", post.gen, len(post.members), pre.gen, len(pre.members))
+	r.class("restart/done")
+	r.res.feats["restart"] = true
+	r.observe(post)
+	return true
+}
+
+// faulted runs one request whose first FetchConsumerGroup fails with a transient error.
+func (r *c12Run) faulted(f func()) {
+	arm := &c12GateArm{label: "FetchConsumerGroup", nth: 1, fail: true}
+	r.gs.arm(arm)
+	r.ctx = context.WithValue(context.Background(), c12WorkerKey{}, "F")
+	f()
+	r.ctx = context.Background()
+	r.gs.arm(nil)
+	if r.gs.wasHit(arm) {
+		r.class("fault/fetch-consumer-group-failed-once")
+		r.res.feats["read-fault"] = true
+	}
+}
+
+func (r *c12Run) restartAct(a c12Act) {
+	if !r.restart() {
+		return
+	}
+	switch a.TMode {
+	case 1: // first request after the restart: an existing member re-joins, the store read fails
+		if cl := r.pick(a.Who); cl != nil {
+			if _, ok := c12Peek(r.c).members[cl.id]; ok {
+				r.faulted(func() { r.doJoin(cl, cl.id, cl.sub, 0, cl.reb) })
+			}
+		}
+	case 2: // ... a new member joins, the store read fails
+		if len(r.live()) < 4 && len(r.cl) < 9 {
+			r.faulted(func() { r.doJoin(nil, "", c12MaskTopics(a.Sub), 10000, 10000) })
+		}
+	case 3: // ... heartbeat / sync / commit, the store read fails
+		if cl := r.pick(a.Who); cl != nil {
+			switch a.TAmt % 3 {
+			case 0:
+				r.faulted(func() { r.doHeartbeat(cl, cl.ownGen) })
+			case 1:
+				r.faulted(func() { r.doSync(cl, cl.ownGen) })
+			default:
+				r.faulted(func() { r.doCommit(cl, cl.ownGen, c12TopicNames[0], 0, 77, false) })
+			}
+		}
+	}
+}
+
+// staleLeave sends a LeaveGroup with an id that is not a member: an identity that already
+// left / expired if there is one, a never-joined id otherwise.
+func (r *c12Run) staleLeave(who int) {
+	w := c12Peek(r.c)
+	var cands []*c12Client
+	for _, c := range r.cl {
+		if _, ok := w.members[c.id]; !ok && !c.ghost {
+			cands = append(cands, c)
+		}
+	}
+	if who < 0 {
+		who = -who
+	}
+	if len(cands) > 0 {
+		r.class("leave/stale-identity")
+		r.doLeave(cands[who%len(cands)])
+		return
+	}
+	gh := &c12Client{id: fmt.Sprintf("%s-ghost-%d", c12Group, who%3), ghost: true, ownGen: 1}
+	if c := r.clientByID(gh.id); c != nil {
+		gh = c
+	} else {
+		r.cl = append(r.cl, gh)
+	}
+	r.class("leave/never-joined-identity")
+	r.doLeave(gh)
 }
 
 func c12DrawInterleaveEnv(t *rapid.T) c12Env {
@@ -291,6 +416,7 @@ func c12DrawInterleaveEnv(t *rapid.T) c12Env {
 		c12KRejoin, c12KSync, c12KHeartbeat, c12KLeave, c12KCommit, c12KAdvance, c12KTopic,
 		c12KRound, c12KRound,
 		c12KInterleave, c12KInterleave, c12KInterleave, c12KInterleave, c12KInterleave, c12KInterleave,
+		c12KRestart, c12KRestart,
 	}
 	n := rapid.IntRange(3, 24).Draw(t, "steps")
 	for i := 0; i < n; i++ {
@@ -300,7 +426,7 @@ func c12DrawInterleaveEnv(t *rapid.T) c12Env {
 			env.Script = append(env.Script, a)
 			continue
 		}
-		a.R1 = rapid.SampledFrom([]int{0, 0, 0, 0, 1, 2, 2, 3, 4, 5, 6}).Draw(t, "r1")
+		a.R1 = rapid.SampledFrom([]int{0, 0, 0, 0, 1, 2, 2, 3, 4, 4, 4, 5, 6}).Draw(t, "r1")
 		a.R2 = rapid.SampledFrom([]int{0, 0, 1, 1, 2, 3, 4, 5}).Draw(t, "r2")
 		// the store call that matches R1 most of the time, any of them otherwise
 		def := map[int]int{0: 0, 1: 0, 2: 1, 3: 1, 4: 1, 5: 1, 6: 3}[a.R1]
@@ -308,7 +434,7 @@ func c12DrawInterleaveEnv(t *rapid.T) c12Env {
 		a.Nth = rapid.SampledFrom([]int{0, 0, 0, 1}).Draw(t, "nth")
 		a.Who = rapid.IntRange(0, 23).Draw(t, "who")
 		a.Who2 = rapid.IntRange(0, 23).Draw(t, "who2")
-		a.TMode = rapid.SampledFrom([]int{3, 3, 3, 2, 1, 0}).Draw(t, "setup")
+		a.TMode = rapid.SampledFrom([]int{3, 3, 7, 7, 5, 2, 1, 0}).Draw(t, "setup")
 		a.TAmt = rapid.IntRange(0, 3).Draw(t, "order")
 		a.GenSel = rapid.SampledFrom([]int{0, 0, 0, 1, 2}).Draw(t, "gensel")
 		a.Sub = rapid.IntRange(0, 15).Draw(t, "sub")
